@@ -52,6 +52,11 @@ impl Graph {
     pub fn src_vertex_id(&self, e: &EdgeId) -> (r: Result<VertexId, NetworkError>)
         ensures r matches Ok(v) ==> v == edge_of(self, *e).src_vertex_id && has_edge(self, *e)
     { unimplemented!() }
+    // neighbouring API (a change that uses it still type-checks and meets the contract)
+    #[verifier::external_body]
+    pub fn dst_vertex_id(&self, e: &EdgeId) -> (r: Result<VertexId, NetworkError>)
+        ensures r matches Ok(v) ==> v == edge_of(self, *e).dst_vertex_id && has_edge(self, *e)
+    { unimplemented!() }
 }
 #[verifier::external_body] pub struct RouteSimilarityFunction { _p: u8 }
 impl Clone for RouteSimilarityFunction { #[verifier::external_body] fn clone(&self) -> (r: RouteSimilarityFunction) ensures r == *self { unimplemented!() } }
@@ -258,6 +263,8 @@ def build(x):
     # ---- bidirectional_ops ----
     rl = x.fn(A + "a_star/bidirectional_ops.rs", "fn route_contains_loop")
     pat = r"let (\w+) = (\w+)\s*\.iter\(\)\s*\.map\(\|(\w+)\| (.*?)\)\s*\.collect::<Result<Vec<_>, _>>\(\)\?;"
+    mloc = re.search(pat, rl.text, re.S)
+    vloc = mloc.group(1) if mloc else "src_vertices"   # the invariant talks about the collected vector under whatever name the code gives it
     rl.rewrite(pat, r"let mut \1: Vec<VertexId> = Vec::new();\n    let mut verif_k: usize = 0;\n    while verif_k < \2.len() { let \3 = &\2[verif_k]; verif_k = verif_k + 1; let verif_x = \4?; \1.push(verif_x); }", 1, 1, rule="R-trycollect", flags=re.S)
     x.note("R-trycollect", "route_contains_loop: `route.iter().map(|e| F).collect::<Result<Vec<_>, _>>()?` written as a loop pushing `F?` (F verbatim)")
     rl.rewrite(r"(\w+)\.iter\(\)\.unique\(\)\.collect_vec\(\)\.len\(\)", r"verif_unique_count(&\1)", 1, 1, rule="R-collect")
@@ -266,7 +273,7 @@ def build(x):
     rl.add_spec("    ensures r matches Ok(b) ==> b == has_loop(&si.directed_graph, route@),")
     rl.add_loop_spec(1, """        invariant 0 <= verif_k <= route@.len(), src_vertices@.len() == verif_k,
             forall|i: int| 0 <= i < verif_k ==> #[trigger] src_vertices@[i] == edge_of(&si.directed_graph, route@[i].edge_id).src_vertex_id,
-        decreases route@.len() - verif_k,""")
+        decreases route@.len() - verif_k,""".replace("src_vertices", vloc))
     rl.insert_before(r"let verif_b = ", """    proof {
         let g = &si.directed_graph; let sv = src_vertices@;
         assert(sv =~= srcs(g, route@));
@@ -279,7 +286,7 @@ def build(x):
             let (i, j) = choose|i: int, j: int| 0 <= i < sv.len() && 0 <= j < sv.len() && i != j && sv[i] == sv[j];
             if i < j { assert(route@[i].edge_id == route@[i].edge_id && route@[j].edge_id == route@[j].edge_id); } else { assert(route@[j].edge_id == route@[j].edge_id && route@[i].edge_id == route@[i].edge_id); }
         }
-    }""")
+    }""".replace("src_vertices@", vloc + "@"))
     rr = x.fn(A + "a_star/bidirectional_ops.rs", "fn reorient_reverse_route")
     rr.rewrite(r'String::from\("[^"]*"\)', "verif_format()", 1, 1, rule="R-format")
     rr.rewrite(r"let mut edge_ids = rev_route\s*\.iter\(\)\s*\.rev\(\)\s*\.map\(\|e\| Some\(e\.edge_id\)\)\s*\.collect_vec\(\);", "let mut edge_ids = verif_rev_ids(rev_route);", 1, 1, rule="R-collect")
